@@ -171,7 +171,7 @@ PROPS["C10"] = {
         ("contracts.unmarshal", "xdis.unmarshal:_VersionIndependentUnmarshaller.t_set"),
     ],
     "ground": [("ground.c01", "check")],
-    "bounded": [("ground.unmarshal_diff", "check")],
+    "bounded": [("ground.unmarshal_diff", "check"), ("ground.consts_diff", "check", {})],
     "assumptions": [],
 }
 
@@ -182,7 +182,7 @@ PROPS["C01"] = {
         ("contracts.unmarshal_dispatch", "xdis.unmarshal:_VersionIndependentUnmarshaller.t_code"),
     ] + PROPS["C10"]["contracts"],
     "ground": [("ground.c01", "check")],
-    "bounded": [("ground.oracle_diff", "check", {"prop": "C01"}), ("ground.unmarshal_diff", "check")],
+    "bounded": [("ground.oracle_diff", "check", {"prop": "C01"}), ("ground.unmarshal_diff", "check"), ("ground.consts_diff", "check", {})],
     "assumptions": [],
 }
 
